@@ -227,20 +227,33 @@ func genC08(seed int64, tier string) *Scenario {
 
 // battery builds the fixed query battery for a clean point.
 func c08Battery(open []File, disk []File) []Op {
-	var ops []Op
+	// documentHighlight is deliberately throttled: it answers nothing for three seconds after an
+	// edit (lsp_server.go isCanHighlight); the battery is asked once that window has passed
+	ops := []Op{{Kind: "clock", N: 4000}}
 	for _, f := range open {
 		pos := identPositions(string(f.Data))
 		if len(pos) > 4 {
 			pos = pos[:4]
 		}
-		for _, p := range pos {
+		for i, p := range pos {
 			p := p
-			for _, m := range []string{"definition", "hover", "references"} {
+			for _, m := range []string{"definition", "hover", "references", "highlight"} {
 				ops = append(ops, Op{Kind: "req", Method: m, Path: f.Path, Pos: &p})
 			}
+			if i == 1 {
+				ops = append(ops, Op{Kind: "req", Method: "rename", Path: f.Path, Pos: &p})
+			}
+		}
+		for _, p := range callArgPositions(string(f.Data)) {
+			p := p
+			ops = append(ops, Op{Kind: "req", Method: "signatureHelp", Path: f.Path, Pos: &p})
 		}
 		ops = append(ops, Op{Kind: "req", Method: "documentSymbol", Path: f.Path})
 		ops = append(ops, Op{Kind: "req", Method: "completion", Path: f.Path, Pos: &Pos{0, 1}})
+		if ends := identEndPositions(string(f.Data)); len(ends) > 3 {
+			ops = append(ops, Op{Kind: "req", Method: "completion", Path: f.Path, Pos: &ends[3]})
+		}
+		ops = append(ops, Op{Kind: "req", Method: "codeLens", Path: f.Path}, Op{Kind: "req", Method: "documentLink", Path: f.Path})
 	}
 	ops = append(ops, Op{Kind: "req", Method: "workspaceSymbol", Arg: "g"})
 	ops = append(ops, Op{Kind: "req", Method: "workspaceSymbol", Arg: "f"})
